@@ -141,6 +141,29 @@ def feasible_with_x_fixed(X, x):
     return False if st == 'infeasible' else None
 
 
+def reference_suppfunc(X, y):
+    """max y.x over the set described by (A, b, K), written independently of SigDomain.suppfunc"""
+    import sageopt.coniclifts as cl
+    A, b, K = np.asarray(X.A, dtype=float), np.asarray(X.b, dtype=float), X.K
+    n = X.n
+    used = [j for j in range(A.shape[1]) if np.any(A[:, j] != 0)]
+    if any(y[j] != 0 and j not in used for j in range(n)):
+        return np.inf
+    z = cl.Variable(shape=(len(used),), name='ref_z')
+    obj = sum(float(y[j]) * z[used.index(j)] for j in range(n) if j in used and y[j] != 0)
+    if not any(j in used and y[j] != 0 for j in range(n)):
+        return 0.0
+    with warnings.catch_warnings():
+        warnings.simplefilter('ignore')
+        try:
+            st, val = cl.Problem(cl.MAX, obj, [cl.PrimalProductCone(A[:, used] @ z + b, K)]).solve(verbose=False)
+        except Exception:
+            return None
+    if st == 'solved':
+        return val
+    return None
+
+
 def oracle_domain(rng, n, gts, eqs):
     from sageopt.relaxations import sage_sigs as ss
     go = [c03.sig_obj(g, n) for g in gts]
@@ -185,6 +208,9 @@ def oracle_domain(rng, n, gts, eqs):
                 sf = X.suppfunc(y)
             if sf < float(y @ xa) - 1e-5 * (1 + abs(float(y @ xa))):
                 return 'suppfunc(%s)=%r is below y.x=%r at the member x=%s' % (y.tolist(), sf, float(y @ xa), x), None
+            ref = reference_suppfunc(X, y)
+            if ref is not None and (np.isfinite(ref) != np.isfinite(sf) or (np.isfinite(ref) and abs(ref - sf) > 1e-4 * (1 + abs(ref)))):
+                return 'suppfunc(%s)=%r but the maximum of y.x over the set described by (A, b, K) is %r' % (y.tolist(), sf, ref), None
     return None, ('domain', '')
 
 
@@ -220,6 +246,10 @@ def oracle_poly_domain(rng):
     if rng.random() < 0.3 and len(idx) >= 2:
         eqs.append(x[idx[0]] ** 2 * x[idx[1]] ** 2 - 1.0)
         desc.append(('eq_prod', idx[0], idx[1], 1.0))
+    if rng.random() < 0.3 and len(idx) >= 2:
+        # an equation that cannot be convexified in log space: it must not be kept (and must not enter the membership test)
+        eqs.append(x[idx[0]] + x[idx[1]] - 2.5)
+        desc.append(('eq_nonconvex', idx[0], idx[1], 2.5))
     with warnings.catch_warnings():
         warnings.simplefilter('ignore')
         try:
